@@ -66,7 +66,7 @@ func runC14Part(c *h.Ctx, part int) {
 	if c.Thorough() {
 		nSeeds = 40
 	}
-	msgLens := []int{0, 1, 2, 31, 32, 33, 63, 64, 65, 111, 112, 113, 127, 128, 129, 255, 300}
+	msgLens := []int{0, 1, 2, 31, 32, 33, 63, 64, 65, 111, 112, 113, 127, 128, 129, 255, 300, 4031, 4064, 4065, 4097, 8193, 70001}
 	// --- key derivation and signing: byte equality with crypto/ed25519 and with the Coq pipeline ----------------------
 	for si := 0; si < nSeeds; si++ {
 		seed := rnd(c, 32)
@@ -84,8 +84,11 @@ func runC14Part(c *h.Ctx, part int) {
 		}
 		pub := []byte(priv[32:])
 		for _, ml := range msgLens {
-			if !c.Thorough() && (ml+si+part)%2 != 0 {
+			if !c.Thorough() && (ml+si+part)%2 != 0 && ml < 4000 {
 				continue
+			}
+			if ml >= 4000 && si != 0 && !c.Thorough() {
+				continue // long messages (fixed scratch buffers!) for the first seed of each part only in quick
 			}
 			msg := rnd(c, ml)
 			sig := ed25519.Sign(priv, msg)
@@ -94,13 +97,19 @@ func runC14Part(c *h.Ctx, part int) {
 			if !bytes.Equal(sig, stdSig) {
 				c.Violation("signing produces exactly the bytes crypto/ed25519 produces", map[string]any{"seed": h.Hex(seed), "message": h.Hex(msg)})
 			}
+			if ml > 4100 {
+				c14Verify(c, "verify:honest", pub, msg, sig)
+				continue
+			}
 			m := c.Model("ed_sign_prep", seed, msg)
 			a, nonce := ref.LE(m[0]), ref.LE(m[1])
 			Aref := B.Mul(a).Encode()
 			if !bytes.Equal(Aref, pub) {
 				c.Violation("the public key is [clamp(SHA-512(seed)[0:32]) mod L]B", map[string]any{"seed": h.Hex(seed)})
 			}
-			c.Case("sign:coq-pipeline", true, "ed_signature", [][]byte{B.Mul(nonce).Encode(), pub, msg, m[0], m[1]}, [][]byte{sig})
+			if ml <= 4100 { // the Coq SHA-512 runs at about 20 kB/s: longer messages are compared with crypto/ed25519 only
+				c.Case("sign:coq-pipeline", true, "ed_signature", [][]byte{B.Mul(nonce).Encode(), pub, msg, m[0], m[1]}, [][]byte{sig})
+			}
 			c14Verify(c, "verify:honest", pub, msg, sig)
 			// non-canonical S variants of an honest signature
 			S := ref.LE(sig[32:])
@@ -215,6 +224,15 @@ func runC14Part(c *h.Ctx, part int) {
 		new(big.Int).Sub(new(big.Int).Exp(two, big.NewInt(252), nil), big.NewInt(1)), new(big.Int).Exp(two, big.NewInt(128), nil), new(big.Int).Sub(new(big.Int).Exp(two, big.NewInt(126), nil), big.NewInt(1))}
 	for j := 0; j < 12; j++ {
 		stress = append(stress, new(big.Int).Mod(new(big.Int).SetBytes(rnd(c, 40)), L))
+	}
+	// scalars whose INVERSE is short (leading zero bytes in the result of ModInverse)
+	for _, bits := range []int{1, 2, 8, 9, 64, 128, 200, 232, 239, 240, 241, 247, 248} {
+		v := new(big.Int).Lsh(big.NewInt(1), uint(bits-1))
+		v.Add(v, new(big.Int).Mod(new(big.Int).SetBytes(rnd(c, 30)), v))
+		x := new(big.Int).ModInverse(v, L)
+		if x != nil {
+			stress = append(stress, x)
+		}
 	}
 	for _, x := range stress {
 		for _, y := range stress {
